@@ -33,9 +33,10 @@ type envT struct {
 	Strat    string            `json:"strat"`
 	MS       map[string]string `json:"ms"`
 	Paths    [][2]string       `json:"paths"`
-	Blocks   []json.RawMessage `json:"blocks"`  // [cdag, [links]]: the truth about the cluster-DAG
-	Fail     []string          `json:"fail"`    // CIDs whose BlockGet fails at the moment
-	LogFail  [][2]string       `json:"logfail"` // <<kind, cid>> consensus operations failing at the moment
+	Blocks   []json.RawMessage `json:"blocks"`   // [cdag, [links]]: the truth about the cluster-DAG
+	Fail     []string          `json:"fail"`     // CIDs whose BlockGet fails at the moment
+	LogFail  [][2]string       `json:"logfail"`  // <<kind, cid>> consensus operations failing at the moment
+	Deferred bool              `json:"deferred"` // the consensus component acknowledges before it commits
 }
 
 type callT struct {
@@ -65,6 +66,13 @@ type obsT struct {
 	Ret    []rig.Entry `json:"ret"`
 	Log    [][2]string `json:"log"`
 	Failed [][2]string `json:"failed"` // consensus operations that were attempted and failed
+	Win    []winT      `json:"win"`    // flush records: what was acknowledged since the last flush
+}
+
+type winT struct {
+	Call callT       `json:"call"`
+	OK   bool        `json:"ok"`
+	Ret  []rig.Entry `json:"ret"`
 }
 
 type recT struct {
@@ -83,6 +91,7 @@ type world struct {
 	proj   *rig.Proj
 	n      int
 	blocks map[string][]byte // every block of the script's DAGs, by abstract CID name
+	ds     *rig.DeferredState
 }
 
 // setFail makes BlockGet fail for the named CIDs (fault injection: the connector has no such block) and
@@ -104,13 +113,21 @@ func (w *world) setFail(fail []string) {
 }
 
 func newWorld(e envT, seed int64) (*world, error) {
-	r, err := rig.NewRig(rig.Opts{Follower: e.Follower, RplMin: e.Dmin, RplMax: e.Dmax, Descending: e.Strat == "desc"})
+	shared := rig.NewSharedState()
+	ds := shared.Deferrable()
+	h, err := rig.NewHost()
+	if err != nil {
+		return nil, err
+	}
+	shared.SetPeers([]peer.ID{h.ID()})
+	r, err := rig.NewRig(rig.Opts{Host: h, Shared: shared, Follower: e.Follower, RplMin: e.Dmin, RplMax: e.Dmax,
+		Descending: e.Strat == "desc"})
 	if err != nil {
 		return nil, err
 	}
 	names := hx.NewNames(seed)
 	names.SetPeer("p1", r.ID)
-	return &world{r: r, proj: rig.NewProj(names)}, nil
+	return &world{r: r, proj: rig.NewProj(names), ds: ds}, nil
 }
 
 var metricValue = map[string]string{"v0": "100", "v1": "200", "v2": "300", "nonnum": "abc"}
@@ -156,6 +173,8 @@ func (w *world) prepare(s *scriptT) error {
 	}
 	w.r.Shared.SetPeers(members)
 	w.r.Shared.FailOps(nil, 0)
+	w.ds.Defer(false)
+	w.ds.Drop()
 	w.r.Shared.Reset()
 	w.r.IPFS.Paths = map[string]cid.Cid{}
 	for _, pc := range s.Env.Paths {
@@ -194,6 +213,7 @@ func (w *world) prepare(s *scriptT) error {
 	}
 	w.setMetrics(s.Env.MS)
 	w.setLogFail(s.Env.LogFail)
+	w.ds.Defer(s.Env.Deferred)
 	w.r.Shared.TakeCalls()
 	return nil
 }
@@ -293,8 +313,44 @@ func TestDriver(t *testing.T) {
 		if env.LogFail == nil {
 			env.LogFail = [][2]string{}
 		}
+		win := []winT{}
+		// flush commits what the deferred consensus has acknowledged and records (committed before, window, after)
+		flush := func(step int) bool {
+			before, err := w.pins()
+			if err == nil {
+				err = w.ds.Flush(context.Background())
+			}
+			var after []rig.Entry
+			if err == nil {
+				after, err = w.pins()
+			}
+			if err != nil {
+				res.Infra("script %d: flush: %v", s.ID, err)
+				return false
+			}
+			rec := recT{ID: s.ID, Step: step, Src: s.Src, Env: env, Ps: before, Call: callT{Op: "flush"},
+				Obs: obsT{OK: true, Ps2: after, Ret: []rig.Entry{}, Log: [][2]string{}, Failed: [][2]string{}, Win: win}}
+			win = []winT{}
+			if err := enc.Encode(&rec); err != nil {
+				res.Infra("write: %v", err)
+				return false
+			}
+			nrec++
+			res.Case(map[string]interface{}{"env": key, "ps": before, "flush": rec.Obs.Win}, len(rec.Obs.Win) > 1)
+			return true
+		}
+		if s.Env.Deferred {
+			// whatever the script does, its last event is a flush
+			s.Steps = append(s.Steps, callT{Op: "flush"})
+		}
 		for i := range s.Steps {
 			c := &s.Steps[i]
+			if c.Op == "flush" {
+				if !flush(i + 1) {
+					return
+				}
+				continue
+			}
 			if c.Op == "logfail" {
 				env.LogFail = c.LogFail
 				if env.LogFail == nil {
@@ -328,7 +384,7 @@ func TestDriver(t *testing.T) {
 				return
 			}
 			rec := recT{ID: s.ID, Step: i + 1, Src: s.Src, Env: env, Ps: before, Call: *c,
-				Obs: obsT{OK: cerr == nil, Ps2: after, Ret: []rig.Entry{}, Log: [][2]string{}, Failed: [][2]string{}}}
+				Obs: obsT{OK: cerr == nil, Ps2: after, Ret: []rig.Entry{}, Log: [][2]string{}, Failed: [][2]string{}, Win: []winT{}}}
 			if cerr != nil {
 				rec.Err = cerr.Error()
 			} else if pin != nil {
@@ -341,12 +397,15 @@ func TestDriver(t *testing.T) {
 				}
 				rec.Obs.Log = append(rec.Obs.Log, [2]string{lc.Kind, w.proj.N.CidName(lc.Pin.Cid)})
 			}
+			if env.Deferred {
+				win = append(win, winT{Call: *c, OK: rec.Obs.OK, Ret: rec.Obs.Ret})
+			}
 			if err := enc.Encode(&rec); err != nil {
 				res.Infra("write: %v", err)
 				return
 			}
 			nrec++
-			res.Case(map[string]interface{}{"env": key, "ms": env.MS, "ps": before, "call": c}, nontrivial(before, c, cerr == nil))
+			res.Case(map[string]interface{}{"env": key, "deferred": env.Deferred, "ms": env.MS, "ps": before, "call": c}, nontrivial(before, c, cerr == nil))
 		}
 	}
 	res.Set("c04_steps_recorded", nrec)
